@@ -446,7 +446,7 @@ fn gen_line(r: &mut Rng, clean: bool) -> String {
     s
 }
 
-fn gen_file(r: &mut Rng) -> String {
+pub fn gen_file(r: &mut Rng) -> String {
     let n = r.range(0, 7);
     // most files are made of valid constructs only, so that multi-line semantics is exercised;
     // the others have one bad line among valid ones, or are bad throughout
